@@ -171,6 +171,11 @@ func sharedHashes(dst []uint64) []uint64 {
 		} else {
 			b = unsafe.Slice((*byte)(sv.ptr), sv.size)
 		}
+		for len(b) >= 8 {
+			h ^= *(*uint64)(unsafe.Pointer(&b[0]))
+			h *= fnvPrime
+			b = b[8:]
+		}
 		for _, c := range b {
 			h ^= uint64(c)
 			h *= fnvPrime
@@ -189,6 +194,7 @@ type epochRun struct {
 	opt        *Options
 	pool       *poolObjs
 	poolText   string
+	poolHash   uint64
 	baseShared []uint64
 	tmpShared  []uint64
 	ctxs       []*Ctx
@@ -226,9 +232,11 @@ func (e *epochRun) checkShared(t *Task) {
 			e.baseShared[i] = h
 		}
 	}
-	if txt := e.pool.render(); txt != e.poolText {
+	if h := e.pool.hash(); h != e.poolHash {
+		txt := e.pool.render()
 		e.addViol(VInput, op, "a shared by-reference input changed: "+diffText(e.poolText, txt), task, idx)
 		e.poolText = txt
+		e.poolHash = h
 	}
 }
 
@@ -289,6 +297,7 @@ func runEpochPass(p *Program, ei int, opt *Options, plan bool) *epochRun {
 	*modePtr = decimal128.RoundingMode(ep.Mode)
 	e.pool = buildPool(&p.Pool)
 	e.poolText = e.pool.render()
+	e.poolHash = e.pool.hash()
 	e.baseShared = sharedHashes(nil)
 	for si := range ep.Streams {
 		e.streams = append(e.streams, newStream(e.sim, &ep.Streams[si]))
